@@ -13,7 +13,7 @@ def expand(cases):
                 runs.append([r[0], r[1], r[2], full])
                 exps.append(x)
         variants = [False]
-        if c['runs'] and not isinstance(c['runs'][0][0], list) and c['runs'][0][0] == c['g'].get('start'):
+        if c['runs'] and not isinstance(c['runs'][0][0], list) and c['runs'][0][0] in (c['g'].get('start'), (c.get('cfg') or {}).get('module_entry')):
             variants = [False, True]
         for via in variants:
             c2 = dict(c)
